@@ -50,7 +50,9 @@ Inductive case :=
 | CPinned (cls : Z) (how : Z)
 (* a script that is a sequence of calls of bridged functions whose arguments may
    re-enter the bridge while they are converted: the Go-side log and the error class *)
-| CReent (calls : list rcall) (log : list (Z * list Z)) (err : Z).
+| CReent (calls : list rcall) (log : list (Z * list Z)) (err : Z)
+(* values nested in a pointer-bridged struct passed to pointer / value / interface parameters that mutate them *)
+| CPtr (init : list Z) (ops : list pop) (o : list ob).
 
 (* what a script reads from a bridged numeric element: the double nearest to it *)
 Definition js_read (o : outcome) : option dclass :=
@@ -164,4 +166,5 @@ Definition verdict (c : case) : Z * Z :=
       let e := (flat_map (ev_call 8) calls, 0) in
       judge (fun a b => list_eqb (fun x y => (fst x =? fst y) && zlist_eqb (snd x) (snd y)) (fst a) (fst b) && (snd a =? snd b))
             (log, err) e e 0
+  | CPtr init ops o => let m := prun init ops in judge obs_eqb o m m 0
   end.
